@@ -196,6 +196,27 @@ package shaping
 //@   ensures [saturates] implies(low <= high && val < low, result == low) && implies(low <= high && val > high, result == high)
 //@   modifies nothing
 //
+// Shape: for ANY run bounds (negative, reversed, beyond the text) the text handed to HarfBuzz satisfies AddRunes'
+// precondition (call-pre obligation), and the output reports exactly the requested rune range, face and size.
+// Everything HarfBuzz does in between is unknown to this proof (the heap is havocked by the calls).
+//@ func HarfbuzzShaper.Shape C01 C13
+//@   mode bv
+//@   requires [face] input.Face != nil
+//@   ensures [requested-range] result.Runes.Offset == input0.RunStart && result.Runes.Count == input0.RunEnd - input0.RunStart
+//@   ensures [passes-through] result.Face == input0.Face && result.Size == input0.Size
+//@   modifies unspecified
+//   C13 ("a shaper that has been used before returns exactly what a fresh one returns"): the harfbuzz.Font handed to
+//   HarfBuzz is one built from THIS face, whatever the font cache holds.
+//@   assert_at call Shape#1 : [font-of-this-face] font.Face() == input.Face
+//
+// The font cache: frames only (the list/map invariants are not stated).
+//@ func fontLRU.Get C13
+//@   mode bv
+//@   modifies all(fontEntry)
+//@ func fontLRU.Put C13
+//@   mode bv
+//@   modifies l.m; l.head; l.tail; all(fontEntry)
+//
 // Preconditions = the assumed HarfBuzz output contract: cluster values are rune indices below textLen, monotone in the reading direction.
 //@ spec clustersMonotone(gs []Glyph, rtl bool) bool = forall(k, 0, len(gs), forall(l, k, len(gs), ite(rtl, gs[k].ClusterIndex >= gs[l].ClusterIndex, gs[k].ClusterIndex <= gs[l].ClusterIndex)))
 //@ func countClusters C01
